@@ -13,16 +13,20 @@ type FSCall struct {
 
 var (
 	fsLog   []FSCall
-	fsFault map[int]error // call index -> error to return instead of doing the call
+	fsFault map[int]error    // call index -> error to return instead of doing the call
+	fsPath  map[string]error // path -> error for every call on that path
 	fsOn    bool
 )
 
+// FSBeginPath is FSBegin with path-sticky faults: every call on a listed path fails.
+func FSBeginPath(fault map[string]error) { fsLog, fsFault, fsPath, fsOn = nil, nil, fault, true }
+
 // FSBegin starts logging file-system calls; fault maps a call index to the
 // errno-style error that call must fail with (wrapped in *fs.PathError).
-func FSBegin(fault map[int]error) { fsLog, fsFault, fsOn = nil, fault, true }
+func FSBegin(fault map[int]error) { fsLog, fsFault, fsPath, fsOn = nil, fault, nil, true }
 
 // FSEnd stops logging and returns the calls seen.
-func FSEnd() []FSCall { l := fsLog; fsLog, fsFault, fsOn = nil, nil, false; return l }
+func FSEnd() []FSCall { l := fsLog; fsLog, fsFault, fsPath, fsOn = nil, nil, nil, false; return l }
 
 func fsEnter(op, path string) error {
 	if !fsOn {
@@ -30,6 +34,10 @@ func fsEnter(op, path string) error {
 	}
 	i := len(fsLog)
 	if e, ok := fsFault[i]; ok {
+		fsLog = append(fsLog, FSCall{op, path, true})
+		return &fs.PathError{Op: op, Path: path, Err: e}
+	}
+	if e, ok := fsPath[path]; ok {
 		fsLog = append(fsLog, FSCall{op, path, true})
 		return &fs.PathError{Op: op, Path: path, Err: e}
 	}
